@@ -54,7 +54,7 @@ Theorem C26_redis_refuted :
     s_believes a0 = true /\ s_believes b0 = true /\ s_owner s0 = Some 1%nat /\
     r_ttl ueq (ss_kv s0) tt = Some (Some 200%Z) /\
     sstep s0 (QTick 0) = Some s1 /\
-    s_owner s1 = Some 1%nat /\ r_ttl ueq (ss_kv s1) tt = Some (Some 300%Z) /\
+    s_owner s1 = Some 1%nat /\ r_ttl ueq (ss_kv s1) tt = Some (Some 1000%Z) /\
     nth_error (ss_rs s1) 0 = Some a1 /\ s_believes a1 = true /\
     sstep s1 (QStop 0) = Some s2 /\
     s_owner s2 = None /\ nth_error (ss_rs s2) 1 = Some b2 /\ s_believes b2 = true.
